@@ -37,10 +37,15 @@ theorem euler_roundtrip (act x dt : ℝ) (hdt : dt ≠ 0) : act + (x - act) / dt
   field_simp
   ring
 
-theorem nextAct_euler (c : Cfg ℝ) (h : c.dyn ≠ Dyn.filterexact) (act actdot : ℝ) :
-    nextAct c act actdot = act + actdot * c.dt := by
-  unfold nextAct
-  cases hd : c.dyn <;> simp_all
+/-- the engine advances the plugin-owned slots by the Euler rule -/
+def OwnEuler (c : Cfg ℝ) : Prop := c.dyn ≠ Dyn.filterexact ∨ c.ownExact = false
+
+theorem nextOwn_euler (c : Cfg ℝ) (h : OwnEuler c) (act actdot : ℝ) :
+    nextOwn c act actdot = act + actdot * c.dt := by
+  unfold nextOwn
+  rcases h with h | h
+  · simp [h]
+  · simp [h]
 
 theorem hasI_iff (c : Cfg ℝ) : hasI c = true ↔ c.ki ≠ 0 := by
   unfold hasI
